@@ -34,4 +34,29 @@ theorem loopBodyErr_of_ok {t : Ty} (h : loopBodyOK t = true) : loopBodyErr t = [
 theorem isSome_eq_false_iff {α} {o : Option α} : o.isSome = false ↔ o = none := by
   cases o <;> simp
 
+theorem letVarTy_sound {ann : Option PTy} {t : Ty} (h : (letVarTy ann t).1 = []) : LetTy ann t (letVarTy ann t).2 := by
+  cases ann with
+  | none =>
+    simp only [letVarTy] at h ⊢
+    cases ha : t.hasAny with
+    | true => simp [ha] at h
+    | false => simp only [Bool.false_eq_true, ↓reduceIte]; exact LetTy.plain ha
+  | some a =>
+    simp only [letVarTy] at h ⊢
+    cases htc : typeCheck (!t.hasAny) t (convertType true a).2 with
+    | some m => simp [htc] at h
+    | none =>
+      simp only [htc] at h ⊢
+      have : convertType true a = ([], (convertType true a).2) := by
+        cases hc : convertType true a; simp_all
+      exact LetTy.annotated this htc
+
+theorem letVarTy_complete {ann : Option PTy} {t vt : Ty} (h : LetTy ann t vt) : letVarTy ann t = ([], vt) := by
+  cases h with
+  | plain ha => simp [letVarTy, ha]
+  | annotated hc htc =>
+    simp only [letVarTy, hc]
+    simp only [Compat] at htc
+    simp [htc]
+
 end HmsProofs.Lemmas.Check
